@@ -26,8 +26,13 @@ def tlc_cases(v, cfg, module="MCStmt.tla", tag="CASE", need=()):
     return cases
 
 
+SKIP_REST = multiprocessing.Value("i", 0)      # set when enough groups of files have made the program hang or die
+
+
 def _obs_job(job):
     binary, packs, structured, macros = job
+    if SKIP_REST.value:
+        return None
     res, runs = st.observe_pack(binary, packs, structured, macros=(macros if macros is not None else bl.DEFAULT_MACROS))
     bad = {}
     for name, r in runs.items():
@@ -139,11 +144,25 @@ def run_cases(binary, cases, v, props, label, sigextra=None, packs=None, relabel
         groups += groups_extra
     jobs = [(binary, pks, structured, macros) for pks, structured in groups]
     procs = max(2, min(common.NCPU - 2, 14))
+    SKIP_REST.value = 0
+    results, nbad = [], 0
+
+    def take(res):
+        nonlocal nbad
+        results.append(res)
+        if res is not None and res[1]:
+            nbad += 1
+            if nbad >= 8:
+                SKIP_REST.value = 1      # the remaining groups add nothing (and each would wait for its time limit)
     if len(jobs) > 2:
         with multiprocessing.get_context("fork").Pool(procs) as pool:
-            results = pool.map(_obs_job, jobs, chunksize=1)
+            for res in pool.imap(_obs_job, jobs, chunksize=1):
+                take(res)
     else:
-        results = [_obs_job(j) for j in jobs]
+        for j in jobs:
+            take(_obs_job(j))
+    kept = [(g, r) for g, r in zip(groups, results) if r is not None]
+    groups, results = [g for g, _ in kept], [r for _, r in kept]
     nprob = 0
     flat = []
     for (pks, structured), (res, bad, exits) in zip(groups, results):
